@@ -26,7 +26,7 @@ type dgen struct {
 	embedded bool // an embedded struct field was generated
 }
 
-var dumpNames = []string{"A", "B", "C", "Name", "Id", "Édit", "Z9", "X_y"}
+var dumpNames = []string{"A", "B", "C", "Name", "Id", "Édit", "Z9", "X_y", "Time", "Time"}
 
 func (g *dgen) scalar() reflect.Type {
 	return pick(g.r, []reflect.Type{reflect.TypeOf(""), reflect.TypeOf(""), reflect.TypeOf(int(0)), reflect.TypeOf(int8(0)), reflect.TypeOf(int64(0)),
